@@ -81,7 +81,7 @@ def connEvent (n : Nat) (s : State) (ev : String) : Option State :=
     | _ => none
   else if let some r := dropPrefix ev "raw:" then
     -- a frame given octet by octet: classified by the byte-level model of ReadPDU (C03 / C04)
-    match r.splitOn ":" with
+    match (r.splitOn ":").take 2 with
     | [k, hex] => do
       let kk ← k.toNat?
       let bs ← fromHex hex
